@@ -4,6 +4,7 @@ import IslaVerif.Driver.C15
 import IslaVerif.Model.Sem
 import IslaVerif.Model.Certify
 import IslaVerif.Model.Agree
+import IslaVerif.Model.Open
 namespace IslaVerif.Driver.SemD
 open IslaVerif Sexp Driver Sem
 
@@ -74,6 +75,17 @@ def handle : List Sexp → Sexp
     | some g, some ts, some f, some env, some bound =>
       .list (ts.map fun t => encTV (evalRef { g := g, root := t, isNT := C04.isNT, intBound := bound } env f))
     | _, _, _, _, _ => bad
+  -- the conservative evaluator for open trees: (sem evalopen g t f env bound)
+  | [.atom "evalopen", g, t, f, env, bound] =>
+    match decodeGrammar g, decodeTree t, decodeFm f, decodeEnv env, asNat? bound with
+    | some g, some t, some f, some env, some bound =>
+      encTV (evalOpen { g := g, root := t, isNT := C04.isNT, intBound := bound } env f)
+    | _, _, _, _, _ => bad
+  -- (sem completes g t t')
+  | [.atom "completes", g, t, t'] =>
+    match decodeGrammar g, decodeTree t, decodeTree t' with
+    | some g, some t, some t' => ofBool (completes g t t')
+    | _, _, _ => bad
   -- the solution certifier: (valid closed rootOk verdict)
   | [.atom "certify", g, t, f, startSym, const, bound] =>
     match decodeGrammar g, decodeTree t, decodeFm f, asStr? startSym, asStr? const, asNat? bound with
